@@ -10,57 +10,58 @@ namespace Desync
 
 theorem archLoop_entry (fuel : Nat) (st s' : St) (dir : Bytes) (skip : Nat)
     (xs : List (Bytes × Bytes)) (nm : Bytes) (sl : Option Bytes) (dv : Option (UInt64 × UInt64))
-    (sz ff mode fl uid gid mt : UInt64)
+    (sz ff mode fl uid gid mt : UInt64) (nd : Nat) (rnd : Bool)
     (hd : decNext st = .ok (some (.entry sz ff mode fl uid gid mt), s')) :
-    archLoop (fuel + 1) ⟨st, dir, none, skip⟩ ⟨none, xs, nm, sl, dv⟩
-      = archLoop fuel ⟨s', dir, none, skip⟩ ⟨some (mode, uid, gid, mt), xs, nm, sl, dv⟩ := by
+    archLoop (fuel + 1) ⟨st, dir, none, skip, nd, rnd⟩ ⟨none, xs, nm, sl, dv⟩
+      = archLoop fuel ⟨s', dir, none, skip, nd, rnd⟩ ⟨some (mode, uid, gid, mt), xs, nm, sl, dv⟩ := by
   rw [archLoop]
   simp [hd]
 
 theorem archLoop_filename_finish (fuel : Nat) (st s' : St) (dir : Bytes) (skip : Nat)
     (e : UInt64 × UInt64 × UInt64 × UInt64) (xs : List (Bytes × Bytes)) (nm : Bytes)
-    (sz : UInt64) (n : Bytes)
+    (sz : UInt64) (n : Bytes) (nd : Nat) (hadm : nd = 0 ∨ nm ≠ [])
     (hd : decNext st = .ok (some (.filename sz n), s')) :
-    archLoop (fuel + 1) ⟨st, dir, none, skip⟩ ⟨some e, xs, nm, none, none⟩
+    archLoop (fuel + 1) ⟨st, dir, none, skip, nd, false⟩ ⟨some e, xs, nm, none, none⟩
       = .ok (some (.dir (joinPath dir nm) (Pending.meta ⟨some e, xs, nm, none, none⟩)),
-          ⟨s', joinPath dir nm, some (.filename sz n), skip⟩) := by
+          ⟨s', joinPath dir nm, some (.filename sz n), skip, nd + 1, false⟩) := by
   rw [archLoop]
-  simp [hd]
+  rcases hadm with h | h <;> simp [hd, ArchDec.admit, h]
 
 theorem archLoop_last_filename (fuel : Nat) (st : St) (dir : Bytes) (skip : Nat)
     (xs : List (Bytes × Bytes)) (nm : Bytes) (sl : Option Bytes) (dv : Option (UInt64 × UInt64))
-    (sz : UInt64) (n : Bytes) (hn : validName n = true) :
-    archLoop (fuel + 1) ⟨st, dir, some (.filename sz n), skip⟩ ⟨none, xs, nm, sl, dv⟩
-      = archLoop fuel ⟨st, dir, none, skip⟩ ⟨none, xs, n, sl, dv⟩ := by
+    (sz : UInt64) (n : Bytes) (nd : Nat) (rnd : Bool) (hn : validName n = true) :
+    archLoop (fuel + 1) ⟨st, dir, some (.filename sz n), skip, nd, rnd⟩ ⟨none, xs, nm, sl, dv⟩
+      = archLoop fuel ⟨st, dir, none, skip, nd, rnd⟩ ⟨none, xs, n, sl, dv⟩ := by
   rw [archLoop]
   simp [hn]
 
 theorem archLoop_payload (fuel : Nat) (st s' s'' : St) (dir : Bytes) (skip : Nat)
     (e : UInt64 × UInt64 × UInt64 × UInt64) (xs : List (Bytes × Bytes)) (nm : Bytes)
     (sl : Option Bytes) (dv : Option (UInt64 × UInt64))
-    (sz : UInt64) (data : Bytes)
+    (sz : UInt64) (data : Bytes) (nd : Nat) (hnm : nm ≠ [])
     (hd : decNext st = .ok (some (.payload sz), s'))
     (ht : takePayload (sz.toNat - 16) s' = .ok (data, s'')) :
-    archLoop (fuel + 1) ⟨st, dir, none, skip⟩ ⟨some e, xs, nm, sl, dv⟩
+    archLoop (fuel + 1) ⟨st, dir, none, skip, nd, false⟩ ⟨some e, xs, nm, sl, dv⟩
       = .ok (some (.file (joinPath dir nm) (Pending.meta ⟨some e, xs, nm, sl, dv⟩) (sz - 16) data),
-          ⟨s'', dir, none, skip⟩) := by
+          ⟨s'', dir, none, skip, nd + 1, false⟩) := by
   rw [archLoop]
-  simp [hd, ht]
+  simp [hd, ht, ArchDec.admit, hnm]
 
 theorem archLoop_goodbye_pop (fuel : Nat) (st s' : St) (dir : Bytes) (skip : Nat)
     (xs : List (Bytes × Bytes)) (nm : Bytes) (sl : Option Bytes) (dv : Option (UInt64 × UInt64))
-    (sz : UInt64) (items : List GoodbyeItem)
+    (sz : UInt64) (items : List GoodbyeItem) (nd : Nat) (rnd : Bool)
     (hd : decNext st = .ok (some (.goodbye sz items), s')) :
-    archLoop (fuel + 1) ⟨st, dir, none, skip⟩ ⟨none, xs, nm, sl, dv⟩
-      = archLoop fuel ⟨s', dirOf dir, none, skip⟩ ⟨none, xs, nm, sl, dv⟩ := by
+    archLoop (fuel + 1) ⟨st, dir, none, skip, nd, rnd⟩ ⟨none, xs, nm, sl, dv⟩
+      = archLoop fuel ⟨s', dirOf dir, none, skip, nd, rnd⟩ ⟨none, xs, nm, sl, dv⟩ := by
   rw [archLoop]
   simp [hd]
 
 theorem archLoop_eof (fuel : Nat) (st s' : St) (dir : Bytes) (skip : Nat)
     (xs : List (Bytes × Bytes)) (nm : Bytes) (sl : Option Bytes) (dv : Option (UInt64 × UInt64))
+    (nd : Nat) (rnd : Bool)
     (hd : decNext st = .ok (none, s')) :
-    archLoop (fuel + 1) ⟨st, dir, none, skip⟩ ⟨none, xs, nm, sl, dv⟩
-      = .ok (none, ⟨s', dir, none, skip⟩) := by
+    archLoop (fuel + 1) ⟨st, dir, none, skip, nd, rnd⟩ ⟨none, xs, nm, sl, dv⟩
+      = .ok (none, ⟨s', dir, none, skip, nd, rnd⟩) := by
   rw [archLoop]
   simp [hd]
 
@@ -131,27 +132,27 @@ theorem payload_size_facts (data : Bytes) (h : data.length < 2 ^ 63) :
 theorem next_root (root : FileRec) (n rest : Bytes) (a0 : Nat) (hn : 16 + n.length + 1 < 2 ^ 64) :
     ArchDec.next
         ⟨⟨encElem (entryElem root) ++
-            (encElem (.filename (UInt64.ofNat (16 + n.length + 1)) n) ++ rest), a0⟩, [dot], none, 0⟩
+            (encElem (.filename (UInt64.ofNat (16 + n.length + 1)) n) ++ rest), a0⟩, [dot], none, 0, 0, false⟩
       = .ok (some (.dir [dot] ⟨root.uid, root.gid, root.mode, root.mtime, []⟩),
           ⟨⟨rest, a0 + n.length + 1⟩, [dot],
-            some (.filename (UInt64.ofNat (16 + n.length + 1)) n), 0⟩) := by
+            some (.filename (UInt64.ofNat (16 + n.length + 1)) n), 0, 1, false⟩) := by
   have hd1 := decNext_entry_enc Gen.TarFeatureFlags root.mode 0 root.uid root.gid root.mtime
     (encElem (.filename (UInt64.ofNat (16 + n.length + 1)) n) ++ rest) a0
   have hd2 := decNext_filename_enc n rest a0 hn
   unfold ArchDec.next
   show archLoop (_ + 1 + 1) _ ⟨none, [], [], none, none⟩ = _
   unfold entryElem
-  rw [archLoop_entry (hd := hd1), archLoop_filename_finish (hd := hd2)]
+  rw [archLoop_entry (hd := hd1), archLoop_filename_finish (hadm := .inl rfl) (hd := hd2)]
   simp [joinPath, Pending.meta]
 
 /-- second `Next`: the pending filename, the file's entry and its payload -/
-theorem next_file (f : FileRec) (sz : UInt64) (rest : Bytes) (a0 : Nat)
+theorem next_file (f : FileRec) (sz : UInt64) (rest : Bytes) (a0 nd : Nat)
     (hname : validName f.base = true) (hsz : f.size = u64len f.data) (hdata : f.data.length < 2 ^ 63) :
     ArchDec.next
         ⟨⟨encElem (entryElem f) ++ (encElem (.payload (16 + f.size)) ++ (f.data ++ rest)), a0⟩,
-          [dot], some (.filename sz f.base), 0⟩
+          [dot], some (.filename sz f.base), 0, nd, false⟩
       = .ok (some (.file f.base ⟨f.uid, f.gid, f.mode, f.mtime, []⟩ f.size f.data),
-          ⟨⟨rest, a0⟩, [dot], none, 0⟩) := by
+          ⟨⟨rest, a0⟩, [dot], none, 0, nd + 1, false⟩) := by
   obtain ⟨h1, h2⟩ := payload_size_facts f.data hdata
   have hd1 := decNext_entry_enc Gen.TarFeatureFlags f.mode 0 f.uid f.gid f.mtime
     (encElem (.payload (16 + f.size)) ++ (f.data ++ rest)) a0
@@ -171,17 +172,17 @@ theorem next_file (f : FileRec) (sz : UInt64) (rest : Bytes) (a0 : Nat)
   rw [hk]
   unfold entryElem
   rw [archLoop_last_filename (hn := hname), archLoop_entry (hd := hd1),
-    archLoop_payload (hd := hd2) (ht := hp)]
+    archLoop_payload (hnm := validName_ne_nil hname) (hd := hd2) (ht := hp)]
   have hne := validName_ne_nil hname
   simp [joinPath, Pending.meta, hne, hsz, h2]
 
 /-- third `Next`: the goodbye element closes the root directory and the input ends -/
-theorem next_goodbye_end (items : List GoodbyeItem) (a0 : Nat) (hne : items ≠ [])
+theorem next_goodbye_end (items : List GoodbyeItem) (a0 : Nat) (nd : Nat) (rnd : Bool) (hne : items ≠ [])
     (htail : (items.getLast hne).hash = Gen.CaFormatGoodbyeTailMarker)
     (hlen : 16 + items.length * 24 < 2 ^ 64) :
     ArchDec.next
-        ⟨⟨encElem (.goodbye (UInt64.ofNat (16 + items.length * 24)) items), a0⟩, [dot], none, 0⟩
-      = .ok (none, ⟨⟨[], a0 + 24 * items.length⟩, dirOf [dot], none, 0⟩) := by
+        ⟨⟨encElem (.goodbye (UInt64.ofNat (16 + items.length * 24)) items), a0⟩, [dot], none, 0, nd, rnd⟩
+      = .ok (none, ⟨⟨[], a0 + 24 * items.length⟩, dirOf [dot], none, 0, nd, rnd⟩) := by
   have hd := decNext_goodbye_enc items [] a0 hne htail hlen
   rw [List.append_nil] at hd
   have hd2 := decNext_nil (a0 + 24 * items.length)
@@ -204,12 +205,12 @@ theorem untar_one_file_archive (root f : FileRec) (hname : validName f.base = tr
     omega
   rw [hk]
   unfold oneFileArchive
-  show untarNodes _ ⟨⟨_, 0⟩, [dot], none, 0⟩ [] = _
+  show untarNodes _ ⟨⟨_, 0⟩, [dot], none, 0, 0, false⟩ [] = _
   rw [untarNodes, next_root root f.base _ 0 hbase]
   simp only [Res.ok_bind]
-  rw [untarNodes, next_file f _ _ _ hname hsz hdata]
+  rw [untarNodes, next_file f _ _ _ _ hname hsz hdata]
   simp only [Res.ok_bind]
-  rw [untarNodes, next_goodbye_end (oneFileTable f) (0 + f.base.length + 1)
+  rw [untarNodes, next_goodbye_end (oneFileTable f) (0 + f.base.length + 1) _ _
     (by simp [oneFileTable]) (by simp [oneFileTable]) (by simp [oneFileTable])]
   simp
 
